@@ -21,6 +21,7 @@ let () = main_loop (function
   | "hm" :: "md5" :: k :: msgs -> "hm md5" ^ hexs (hmac_md5_session (bytes_of_hex k) (List.map chunks_of msgs))
   | "hm" :: "sha1" :: k :: msgs -> "hm sha1" ^ hexs (hmac_sha1_session (bytes_of_hex k) (List.map chunks_of msgs))
   | ["key"; h] -> "key " ^ key_answer (set_hex (bytes_of_hex h))
+  | ["hexkey"; h] -> "hexkey " ^ hex_of_bytes (to_hex (bytes_of_hex h)) ^ " rt=1"
   | ["keyf"; h] -> "keyf " ^ key_answer (key_from_file (bytes_of_hex h))
   | ["name"; h] ->
       (match digest_by_name (bytes_of_hex h) with
